@@ -120,7 +120,9 @@ def gen_structure(rng):
         for f in outs:
             eq = ["neg", ["ref", f]] if eq is None else ["bin", "-", eq, ["ref", f]]
         spec_el.append(dict(name=s, kind="stock", init=init, eq=eq))
-        xml_el.append(dict(kind="stock", name=s, eqn=repr(init), inflows=ins, outflows=outs))
+        # (Stella writes <non_negative/> on stocks by default; this transpiler applies it to the stock's equation - its initial value - only,
+        #  the integration itself stays explicit Euler, as in the SD DSL)
+        xml_el.append(dict(kind="stock", name=s, eqn=repr(init), inflows=ins, outflows=outs, non_negative=(rng.random() < 0.5)))
     multi = any(len(i) >= 2 or len(o) >= 2 for i, o in flows.values())
     sig = "%s|%s|%d|%s|%s|%s" % (dt, start, len(stocks), sorted(kinds), sorted(set(gfforms)), multi)
     return dict(run=run, points=points, elements=spec_el), xml_el, recip, sig, stocks, multi
@@ -203,6 +205,9 @@ def run_case(case):
         if len(grid) != len(ref.times) or any(abs(a - b) > 1e-9 for a, b in zip(grid, ref.times)):
             return dict(verdict="violated", counters=counters, mech="grid", witness=dict(grid=grid[:5] + grid[-3:], expected=ref.times[:5] + ref.times[-3:], run=spec["run"]))
         from BPTK_Py.sdcompiler.plugins.sanitizeNames import sanitizeName
+        for xe in xml_el:
+            if xe["kind"] == "stock" and xe.get("non_negative") and min(table[xe["name"]]) < -1e-9:
+                counters["non_negative_stocks_that_go_negative"] = counters.get("non_negative_stocks_that_go_negative", 0) + 1
         scoped = [("", nme, table) for nme in names] + ([(sanitizeName("region b") + ".", nme, modtable) for nme in names] if modspec is not None else [])
         for (scope, nme, tab_) in scoped:
             for k, t in enumerate(grid):
